@@ -132,27 +132,30 @@ def check_history(sc, run, part: Part):
                             f"{ctx}: outcome {rec['outcome']} with {len(txt)} transmissions, expected rejection on #{j + 1}"))
             else:
                 part.count("prefix_rejected")
-        elif cls == "badlate_ok":
-            # TCP reports a malformed answer at once as RequestRejectedException('') (by design, see C09)
-            if tr == "udp" and R >= 1:
-                want = [rec["t0"], rec["t0"] + 0.5 * T]
-                ok = rec["outcome"] == "ok" and len(txt) == 2 and all(abs(a - b) < EPS for a, b in zip(txt, want)) and \
-                    abs(rec["t1"] - (rec["t0"] + 1.3 * T)) < EPS
-                if not ok:
-                    out.append((f"C05/{tr}/timeout-cut-short",
-                                f"{ctx}: corrupted answer at +{0.5 * T}, retransmission answered {0.8 * T} later (inside its own timeout): "
-                                f"outcome {rec['outcome']} at +{round(rec['t1'] - rec['t0'], 6)}, transmissions at {[round(t - rec['t0'], 6) for t in txt]}"))
-                else:
-                    part.count("full_timeout_after_corrupt_answer")
-        elif cls == "badlate_exh":
+        elif cls in ("badlate_ok", "badlate_exh"):
+            # implementation-agnostic form of "each transmission gets the full timeout": a retransmission (or the final failure) may
+            # come earlier than one timeout after the previous transmission only if something was RECEIVED in between
+            evs = engine.events_of_call(run, rec["id"])
+            marks_ = [(e[0], e[1]) for e in evs if e[1] in ("tx", "rx", "rxerr", "eof", "txerr")]
+            early = None
+            for i, (t, k) in enumerate(marks_):
+                if k != "tx":
+                    continue
+                nxt = next(((t2, k2) for t2, k2 in marks_[i + 1:] if k2 == "tx"), None)
+                end_t = nxt[0] if nxt else rec["t1"]
+                received_between = any(k2 != "tx" and t < t2 <= end_t + EPS for t2, k2 in marks_[i + 1:]) or \
+                    any(k2 != "tx" and abs(t2 - t) < EPS and j > i for j, (t2, k2) in enumerate(marks_))
+                if end_t < t + T - EPS and not received_between and not (nxt is None and rec["outcome"] == "ok"):
+                    early = (t, end_t)
             if tr == "udp":
-                want = [rec["t0"]] + [rec["t0"] + 0.5 * T + k * T for k in range(R)]
-                ok = len(txt) == len(want) and all(abs(a - b) < EPS for a, b in zip(txt, want)) and \
-                    abs(rec["t1"] - (want[-1] + T if R >= 1 else rec["t0"] + 0.5 * T)) < EPS and rec["outcome"] == "RequestFailedException"
-                if not ok:
+                if early:
                     out.append((f"C05/{tr}/timeout-cut-short",
-                                f"{ctx}: corrupted answer at +{0.5 * T} then silence: transmissions at {[round(t - rec['t0'], 6) for t in txt]}, "
-                                f"ended {rec['outcome']} at +{round(rec['t1'] - rec['t0'], 6)}; expected {[round(w - rec['t0'], 6) for w in want]}"))
+                                f"{ctx}: the transmission at +{round(early[0] - rec['t0'], 6)} was given up at +{round(early[1] - rec['t0'], 6)} "
+                                f"(timeout {T}) although nothing had been received for it"))
+                elif cls == "badlate_ok" and R >= 1 and rec["outcome"] != "ok":
+                    out.append((f"C05/{tr}/timeout-cut-short",
+                                f"{ctx}: corrupted answer at +{0.5 * T}, the retransmission was answered {0.8 * T} after it was sent (inside its "
+                                f"timeout), yet the request ended {rec['outcome']} at +{round(rec['t1'] - rec['t0'], 6)}"))
                 else:
                     part.count("full_timeout_after_corrupt_answer")
         elif cls == "senderr":
